@@ -124,7 +124,30 @@ pub fn gen_spec(t: &mut Tape, name: &str) -> (Spec, GenInfo) {
         _ => (true, true),
     };
     let n_vocab = t.range(3, 6);
-    let mut vocab: Vec<String> = (0..n_vocab).map(|_| gen_mnemonic(t)).collect();
+    let mut vocab: Vec<String> = Vec::new();
+    for _ in 0..n_vocab {
+        let m = gen_mnemonic(t);
+        // siblings that share a prefix and then diverge (letter vs digit vs underscore vs end): the
+        // situation in which abbreviations, sort orders and prefix comparisons go wrong
+        if !vocab.is_empty() && t.chance(2, 5) {
+            let base = vocab[t.below(vocab.len())].clone();
+            let keep = t.range(1, base.len().min(4));
+            let head: String = base.chars().take(keep).collect::<String>().to_ascii_uppercase();
+            let tail = match t.below(5) {
+                0 => format!("_{}", (b'A' + t.below(26) as u8) as char),
+                1 => format!("{}", t.below(10)),
+                2 => format!("{}{}", (b'A' + t.below(26) as u8) as char, (b'a' + t.below(26) as u8) as char),
+                3 => format!("{}", (b'a' + t.below(26) as u8) as char),
+                _ => String::new(),
+            };
+            let cand = format!("{}{}", head, tail);
+            if !vocab.contains(&cand) {
+                vocab.push(cand);
+                continue;
+            }
+        }
+        vocab.push(m);
+    }
     if t.chance(1, 3) {
         // user declarations under SYSTem, next to the standard commands
         vocab.push("SYSTem".to_string());
@@ -175,7 +198,7 @@ pub fn gen_spec(t: &mut Tape, name: &str) -> (Spec, GenInfo) {
 // C14: colliding pairs and their twins
 // -------------------------------------------------------------------------------------------------
 
-pub const COLLISION_KINDS: [&str; 9] = [
+pub const COLLISION_KINDS: [&str; 11] = [
     "identical spelling",
     "short form written out",
     "long form in upper case",
@@ -185,6 +208,8 @@ pub const COLLISION_KINDS: [&str; 9] = [
     "two optionals meeting",
     "standard command redeclared",
     "query twin of a colliding command",
+    "same long form, different short forms",
+    "long form of one is the short form of the other",
 ];
 
 fn render_nodes(nodes: &[(String, bool)], query: bool) -> String {
@@ -278,7 +303,26 @@ pub fn gen_ambiguous(t: &mut Tape, name: &str) -> Option<Ambiguous> {
                 ("".into(), s.to_string(), format!("SYSTem:{}?", a), s != "SYSTem:VERSion?")
             }
         }
-        _ => (format!("{}:{}?", a_l, b), format!("{}:{}?", short_of(&a_l), b), format!("{}:{}", short_of(&a_l), b), true),
+        8 => (format!("{}:{}?", a_l, b), format!("{}:{}?", short_of(&a_l), b), format!("{}:{}", short_of(&a_l), b), true),
+        9 => {
+            // VOLTage vs VOLTAGe: equal long forms, different short forms
+            let up = a.to_ascii_uppercase();
+            let up = if up.len() < 4 { format!("{}XYZW", up) } else { up };
+            let cut1 = t.range(1, up.len() - 2);
+            let cut2 = t.range(cut1 + 1, up.len() - 1);
+            let v1 = format!("{}{}", &up[..cut1], up[cut1..].to_ascii_lowercase());
+            let v2 = format!("{}{}", &up[..cut2], up[cut2..].to_ascii_lowercase());
+            (format!("{}:{}{}", v1, b, q), format!("{}:{}{}", v2, b, q), format!("{}Z:{}{}", v2, b, q), true)
+        }
+        _ => {
+            // ABCDef (short ABCD) vs ABcd (long ABCD)
+            let up = a.to_ascii_uppercase();
+            let up = if up.len() < 3 { format!("{}XY", up) } else { up };
+            let cut = t.range(1, up.len() - 1);
+            let longer = format!("{}{}", up, "ef");
+            let shorter = format!("{}{}", &up[..cut], up[cut..].to_ascii_lowercase());
+            (format!("{}:{}{}", longer, b, q), format!("{}:{}{}", shorter, b, q), format!("{}Z:{}{}", shorter, b, q), true)
+        }
     };
     // the base must stay collision-free with the first declaration and the twin
     let mk = |cmd: &str, t: &mut Tape| Decl {
